@@ -293,21 +293,28 @@ def h_immutable_trim(size: int, segsize: int, segnum: int, p: int) -> bool:
     return True
 
 
-def h_mutable_trim(datalength: int, segsize: int, segnum: int, p: int) -> bool:
+def h_mutable_trim(datalength: int, segsize: int, segnum: int, offset: int, length: int, p: int) -> bool:
     """
     pre: 1 <= datalength and 1 <= segsize and segsize % B.get("k", 3) == 0 and 0 <= segnum and 0 <= p
+    pre: 0 <= offset and 1 <= length and offset + length <= datalength
     post: _ == True
     """
+    # an arbitrary read [offset, offset+length) of the file: _setup_encoding_parameters works out _start_segment/_last_segment
+    # for it, and any segment of that read is decoded; which segment is the FILE's tail does not depend on the read
     k = B.get("k", 3)
     logs = []
     me = retrieve_mod.Retrieve.__new__(retrieve_mod.Retrieve)
-    me.__dict__.update(dict(verinfo=(1, b"root", None, segsize, datalength, k, k + 2, b"prefix", ()), _offset=0, _read_length=datalength,
+    me.__dict__.update(dict(verinfo=(1, b"root", None, segsize, datalength, k, k + 2, b"prefix", ()), _offset=offset, _read_length=length,
                             _data_length=datalength, log=lambda *a, **kw: 0, _status=_DSt(), _set_current_status=logs.append))
     saved = codec.zfec
     codec.zfec = _IdealZfec
     try:
         me._setup_encoding_parameters()
         assume(segnum < me._num_segments)
+        assume(me._start_segment <= segnum and segnum <= me._last_segment)
+        if not (me._start_segment * segsize <= offset and offset < (me._start_segment + 1) * segsize
+                and me._last_segment * segsize < offset + length and offset + length <= (me._last_segment + 1) * segsize):
+            return "first/last segment of the read are not the segments holding its first/last byte"
         tail = segnum == me._num_segments - 1
         dec = me._tail_decoder if tail else me._segment_decoder
         bs = dec.share_size
@@ -325,4 +332,74 @@ def h_mutable_trim(datalength: int, segsize: int, segnum: int, p: int) -> bool:
         return "delivered byte p is not byte p of the decoded segment"
     if salt != b"salt":
         return "salt lost"
+    return True
+
+
+# ---- upload side: which block goes to which share ------------------------------------------------------------
+
+from allmydata.immutable import encode as encode_mod
+
+strip_all(encode_mod.Encoder)
+encode_mod.time = NS(time=_tick)
+
+
+class _HashProxy(object):
+    """encode.hashutil with block_hash replaced by an ideal (injective, recording) hash"""
+
+    def __getattr__(self, name):
+        return getattr(_real_hashutil, name)
+
+    def block_hash(self, block):
+        return ("block-hash-of", block)
+
+
+from allmydata.util import hashutil as _real_hashutil
+encode_mod.hashutil = _HashProxy()
+NOTES.append("encode.hashutil.block_hash replaced by an ideal recording hash; encode.time by a counter; shareholders are recorders; "
+             "the codec output is N distinct tagged blocks")
+
+
+class _Landlord(object):
+    def __init__(self, shnum):
+        self.shnum = shnum
+        self.got = []
+
+    def put_block(self, segnum, block):
+        self.got.append((segnum, block))
+        from twisted.internet import defer
+        return defer.succeed(None)
+
+
+def h_send_pairing(mask: int, segnum: int, rot: int) -> bool:
+    """
+    pre: 0 <= mask < 2 ** B.get("n", 4) and 0 <= segnum <= 2 and 0 <= rot < B.get("n", 4)
+    post: _ == True
+    """
+    # the codec produced N blocks for share numbers shareids (0..N-1, listed in a rotated order); an arbitrary subset of
+    # the shares still has a landlord (holes = shareholders lost earlier / shares never placed)
+    n = B.get("n", 4)
+    mask, segnum, rot = _pin(mask, 0, 2 ** n - 1), _pin(segnum, 0, 2), _pin(rot, 0, n - 1)
+    shareids = [(i + rot) % n for i in range(n)]
+    shares = [("block-of-share", sid, segnum) for sid in shareids]
+    enc = encode_mod.Encoder.__new__(encode_mod.Encoder)
+    enc.landlords = dict((s, _Landlord(s)) for s in range(n) if mask & (1 << s))
+    holders = dict(enc.landlords)
+    enc.block_hashes = [[("earlier", s)] * segnum for s in range(n)]
+    enc.num_segments = 3
+    enc.segment_size = 12
+    enc._times = {"cumulative_sending": 0.0}
+    enc._log_number = 0
+    enc.log = lambda *a, **kw: 0
+    enc.set_status = lambda *a, **kw: None
+    enc.set_encode_and_push_progress = lambda *a, **kw: None
+    out = _collect(enc._send_segment((shares, shareids), segnum))
+    if len(out) != 1 or isinstance(out[0], Failure):
+        return "sending a segment to healthy shareholders failed: %r" % (out,)
+    for s in range(n):
+        want_block = ("block-of-share", s, segnum)
+        if s in holders:
+            if holders[s].got != [(segnum, want_block)]:
+                return "the shareholder of share s did not receive exactly share s's block of this segment"
+        if len(enc.block_hashes[s]) != segnum + 1 or enc.block_hashes[s][segnum] != ("block-hash-of", want_block):
+            return "block hash recorded for (share s, segment) is not the hash of share s's block"
     return True
